@@ -346,10 +346,14 @@ class SyncWorld:
             try:
                 w.sched.point('api')
                 if name == 'session_ctx':
-                    with w.server.session(args[0]) as s:
+                    cm = w.server.session(args[0])
+                    w.sched.point('session.made')
+                    with cm as s:
+                        w.sched.point('session.entered')
                         if len(args) > 1:
                             s.update(args[1])
                         c.result = dict(s)
+                        w.sched.point('session.leaving')
                 else:
                     c.result = getattr(w.server, name)(*args)
             except vthreads.Unwind:
